@@ -457,11 +457,23 @@ def run(ctx):
         ctx.fail("corr:coq-error", f"case file {name} did not evaluate", {"kind": "broken-correspondence", "file": name, "output": out}, concrete=False)
     for i in bad[:3]:
         m = meta[i]
+        first = None
+        rc, out = common.coq_eval(f"{ctx.prop}_corr_show", HEADER + f"Eval vm_compute in fst (run_icase ({cases[i]})).\n")
+        vals = common.parse_eval_values(out) if rc == 0 else []
+        if len(vals) == 1:
+            import re
+            model_codes = [int(z) for z in re.findall(r"-?\d+", vals[0].replace("%Z", ""))]
+            nc = len(m["alphabet"])
+            for j, (a, b) in enumerate(zip(model_codes, m["codes"])):
+                if a != b:
+                    first = {"existing_children": [m["alphabet"][c] for c in m["words"][j // nc]],
+                             "new_child": m["alphabet"][j % nc], "implementation": b, "model": a,
+                             "legend": "index, or -1 ChildNotAllowedError, -2 ValueError, -3 Rule() raised, -8/-9 other"}
+                    break
         ctx.fail(f"corr:cii:{m['rule']}", "model and implementation disagree on child_insert_index / is_allowed_child",
                  {"kind": "broken-correspondence", "theorem": "C17 (model/implementation correspondence)", "rule": m["rule"],
-                  "children_spec": m["children"], "alphabet": m["alphabet"], "words_as_indices": m["words"][:50],
-                  "implementation_codes": m["codes"][:200], "implementation_allowed": m["allowed"],
-                  "model": RL.coq_show(ctx, "corr", "run_icase", cases[i], header=HEADER)}, concrete=False)
+                  "children_spec": m["children"], "first_difference": first, "implementation_allowed": m["allowed"],
+                  "alphabet": m["alphabet"]}, concrete=False)
     if not built:
         ctx.obligations_failed("statement search over all shipped rules and random rules: bounds, declared order, refusal, "
                                "restoration judged by brute-force language membership and by the validator")
